@@ -75,7 +75,17 @@ def _construct(doc, version, how):
     import stix2
     if how == "parse":
         return core.guarded(stix2.parse, json.dumps(doc), allow_custom=True, version=version)
-    return core.guarded(_class_for(doc, version), allow_custom=True, **copy.deepcopy(doc))
+    kw = copy.deepcopy(doc)
+    if how == "kwargs-tuples":
+        # the arrays of custom properties handed over as Python tuples (they are written as arrays): their elements are list elements
+        def tup(v):
+            if isinstance(v, list):
+                return tuple(tup(x) for x in v)
+            if isinstance(v, dict):
+                return {k: tup(x) for k, x in v.items()}
+            return v
+        kw = {k: (tup(v) if k.startswith("x_") else v) for k, v in kw.items()}
+    return core.guarded(_class_for(doc, version), allow_custom=True, **kw)
 
 
 def _selectors_of(x):
@@ -163,7 +173,7 @@ def _run(case):
             distinct.add(core.fingerprint([doc["type"], version, form, mm.path_shape(comps), vclass, q]))
         if form == "object":
             ofeats = feats
-            for how in ("parse", "kwargs"):
+            for how in ("parse", "kwargs") + (("kwargs-tuples",) if sel.startswith("x_") and "[" in sel else ()):
                 obj, exc = _construct(_with_marking(doc, [sel]), version, how)
                 stage = "construction(%s)" % how
                 if exc is not None:
